@@ -675,6 +675,9 @@ def c11(run):
 
 @check("C12")
 def c12(run):
+    ospath, _ = run.emit("os", ["emit", "os"])
+    run.mc_leg("mc_trapmode", "MC_TrapMode", "MC_TrapMode3.cfg" if run.tier == "thorough" else "MC_TrapMode.cfg",
+               env={"OSIMG": ospath}, workers=16, timeout=6000)
     r, path, n, rej = run.trace_leg("trapmode_rel", ["machine", "kind=trapmode"], spec="TV_Pairs", cfg="TV_Pairs.cfg",
                                     verdict=PAIRV + ["real-traps-output-differs", "real-traps-registers-differ",
                                                      "real-traps-user-memory-differs", "real-traps-no-halt",
@@ -685,7 +688,11 @@ def c12(run):
              "by load and by store, RTI in user mode, reserved opcode, invalid format), each run to completion under "
              "virtual and under real traps from identical states; TLC checks on the two final states: halting programs "
              "give the same output, R0-R5 and user memory and stop through the MCR; faulting programs print the OS "
-             "message of that exception after the same output and halt",
+             "message of that exception after the same output and halt (premise: the run ends in user mode under virtual "
+             "traps).  Two of three programs are generated (arithmetic, data cells, PUTS/OUT/PUTSP/GETC/IN, nested "
+             "subroutines keeping R7 on the stack, counted loops, push/pop; five endings).  MC_TrapMode: the same statement "
+             "model-checked inside the specification on the real OS image for every program of up to 2 (thorough: 3) "
+             "fragments out of 9 with each of 6 endings",
         level_note="message texts are those of os.asm; both runs are validated against Machine (drift only)")
 
 
